@@ -381,25 +381,28 @@ fn describe_mismatch(what: &str, got: &[u8], want: &[u8]) -> String {
 pub static NO_MEMORY_LIMIT: std::sync::atomic::AtomicBool = std::sync::atomic::AtomicBool::new(false);
 
 pub fn limit_memory() {
-    static DONE: OnceLock<()> = OnceLock::new();
-    DONE.get_or_init(|| {
-        // (the libFuzzer tier runs under AddressSanitizer, which needs its huge address-space
-        // reservation and has its own -rss_limit_mb / -malloc_limit_mb)
-        if NO_MEMORY_LIMIT.load(std::sync::atomic::Ordering::Relaxed) {
+    // (the libFuzzer tier runs under AddressSanitizer, which needs its huge address-space
+    // reservation and has its own -rss_limit_mb / -malloc_limit_mb)
+    if NO_MEMORY_LIMIT.load(std::sync::atomic::Ordering::Relaxed) {
+        return;
+    }
+    // Called at the start of every case. The soft limit is set relative to what the process maps
+    // *now*, so that the outcome of one huge request depends neither on how much is mapped already
+    // nor on how much the shard process has grown since it started (symbolisation caches, the
+    // engine's own accounting): with 1.5 GiB of headroom a request of 2 GiB or more (a length field
+    // turned into 0x7fffffff.. by a mutant) always fails, and the tens of megabytes a legitimate
+    // decode needs always fit. Only the soft limit is touched, so it can be moved again.
+    let mapped: u64 = std::fs::read_to_string("/proc/self/statm").ok().and_then(|t| t.split_whitespace().next().and_then(|p| p.parse::<u64>().ok())).map(|pages| pages * 4096).unwrap_or(2 << 30);
+    let cap = mapped + (3 << 29);
+    let mut lim = libc::rlimit { rlim_cur: 0, rlim_max: 0 };
+    // SAFETY: plain syscalls with a valid pointer.
+    unsafe {
+        if libc::getrlimit(libc::RLIMIT_AS, &mut lim) != 0 {
             return;
         }
-        // Relative to what the process maps now, so that the outcome of one huge request does not
-        // depend on how much is mapped already: with 1.5 GiB of headroom a request of 2 GiB or
-        // more (a length field turned into 0x7fffffff.. by a mutant) always fails, and the tens of
-        // megabytes a legitimate decode needs always fit.
-        let mapped: u64 = std::fs::read_to_string("/proc/self/statm").ok().and_then(|t| t.split_whitespace().next().and_then(|p| p.parse::<u64>().ok())).map(|pages| pages * 4096).unwrap_or(2 << 30);
-        let cap = mapped + (3 << 29);
-        let lim = libc::rlimit { rlim_cur: cap, rlim_max: cap };
-        // SAFETY: plain syscall with a valid pointer.
-        unsafe {
-            libc::setrlimit(libc::RLIMIT_AS, &lim);
-        }
-    });
+        lim.rlim_cur = if lim.rlim_max == libc::RLIM_INFINITY { cap } else { cap.min(lim.rlim_max) };
+        libc::setrlimit(libc::RLIMIT_AS, &lim);
+    }
 }
 
 #[derive(Clone, Copy, Debug, PartialEq, Eq)]
